@@ -40,6 +40,7 @@ pub struct Generator
 	local_variables: std::collections::HashMap<u32, LLVMValueRef>,
 	local_labeled_blocks: std::collections::HashMap<u32, LLVMBasicBlockRef>,
 	used_intrinsics: std::collections::HashMap<&'static str, LLVMValueRef>,
+	structures: std::collections::HashMap<String, LLVMTypeRef>,
 	target_triple: CString,
 	data_layout: CString,
 	type_of_usize: LLVMTypeRef,
@@ -78,6 +79,7 @@ impl Generator
 				local_variables: std::collections::HashMap::new(),
 				local_labeled_blocks: std::collections::HashMap::new(),
 				used_intrinsics: std::collections::HashMap::new(),
+				structures: std::collections::HashMap::new(),
 				target_triple,
 				data_layout,
 				type_of_usize,
@@ -144,6 +146,10 @@ impl Generator
 		// earlier module belongs to a module that has since been linked
 		// away (and disposed of).
 		self.used_intrinsics.clear();
+		// Named types live in the context, which is shared by all modules,
+		// but a structure name only ever refers to the structure declared in
+		// (or imported into) the current module.
+		self.structures.clear();
 
 		Ok(())
 	}
@@ -176,8 +182,22 @@ impl Generator
 	) -> Result<(), anyhow::Error>
 	{
 		let name = CString::new(structure_name)?;
-		unsafe { LLVMStructCreateNamed(self.context, name.as_ptr()) };
+		let struct_type =
+			unsafe { LLVMStructCreateNamed(self.context, name.as_ptr()) };
+		self.structures
+			.entry(structure_name.to_string())
+			.or_insert(struct_type);
 		Ok(())
+	}
+
+	/// Find the type of a structure declared in the current module.
+	fn get_structure_type(&self, structure_name: &str) -> LLVMTypeRef
+	{
+		match self.structures.get(structure_name)
+		{
+			Some(&struct_type) => struct_type,
+			None => std::ptr::null_mut(),
+		}
 	}
 
 	/// Generate surface level IR for constants, structures and
@@ -534,16 +554,16 @@ fn declare(
 			depth: _,
 		} =>
 		{
-			let name = CString::new(&name.name as &str)?;
-			let struct_type = unsafe {
-				let x = LLVMGetTypeByName(llvm.module, name.as_ptr());
+			let struct_type = {
+				let x = llvm.get_structure_type(&name.name);
 				if !x.is_null()
 				{
 					x
 				}
 				else
 				{
-					LLVMStructCreateNamed(llvm.context, name.as_ptr())
+					llvm.forward_declare_structure(&name.name)?;
+					llvm.get_structure_type(&name.name)
 				}
 			};
 
@@ -1374,8 +1394,7 @@ impl Generatable for ValueType
 				size_in_bytes: _,
 			} =>
 			{
-				let struct_name = CString::new(&identifier.name as &str)?;
-				unsafe { LLVMGetTypeByName(llvm.module, struct_name.as_ptr()) }
+				llvm.get_structure_type(&identifier.name)
 			}
 			ValueType::UnresolvedStructOrWord { .. } => unreachable!(),
 			ValueType::Pointer { deref_type }
@@ -2766,8 +2785,7 @@ fn format_struct(
 	buffer.add_user_text(&struct_name.name, llvm)?;
 	buffer.add_text(" {");
 
-	let sname = CString::new(&struct_name.name as &str)?;
-	let struct_type = unsafe { LLVMGetTypeByName(llvm.module, sname.as_ptr()) };
+	let struct_type = llvm.get_structure_type(&struct_name.name);
 	// TODO print members
 	let _ = (argument, struct_type);
 
